@@ -1244,3 +1244,116 @@ def usize_opaque(ip, st, ci):
         return ("bool", ("opaque", key))
     st.F.add_ge(Lin.sym(key))
     return vsize(Lin.sym(key))
+
+
+@prim("Iterator::for_each")
+def iter_for_each(ip, st, ci):
+    """for_each(closure): summarised like a loop whose body is one call of the closure per element."""
+    from .loops import summarise_call_loop
+    it = _as_iter(ip, st, ci, ci["args"][0], ci["argops"][0])
+    clo = ci["args"][1]
+    N = iter_count(ip, st, it)
+
+    def runner(s, idx):
+        out = []
+        for s2, e in iter_elem_multi(ip, s, it, idx):
+            if clo[0] == "closure":
+                res = _call_closure(ip, s2, ci, clo, [e])
+            elif clo[0] == "fn":
+                ci2 = dict(ci)
+                ci2["fn"] = clo[1]
+                ci2["args"] = [e]
+                ci2["argops"] = [ci["argops"][0]]
+                res = ip.call(s2, ci2)
+            else:
+                raise Undecided("for_each with %s callback" % clo[0])
+            out.extend(s3 for s3, _ in res)
+        return out
+    states = summarise_call_loop(ip, st, ci["fr"], N, runner)
+    return [(s, vunit()) for s in states]
+
+
+@prim("Iterator::skip", "Iterator::take")
+def iter_skip_take(ip, st, ci):
+    a = _as_iter(ip, st, ci, ci["args"][0], ci["argops"][0])
+    k = ci["args"][1]
+    if k[0] != "size":
+        raise Undecided("skip/take count")
+    return ("iter", ci["fn"]["name"], a, k[1])
+
+
+@prim("Iterator::copied", "Iterator::cloned")
+def iter_copied(ip, st, ci):
+    a = _as_iter(ip, st, ci, ci["args"][0], ci["argops"][0])
+    return ("iter", "copied", a)
+
+
+_iter_count2 = iter_count
+_iter_elem2 = iter_elem
+_iter_elem_multi2 = iter_elem_multi
+
+
+def iter_count(ip, st, it):  # noqa: F811
+    k = it[1]
+    if k == "skip":
+        n = iter_count(ip, st, it[2])
+        if st.F.le(it[3], n):
+            return n - it[3]
+        if st.F.le(n, it[3]):
+            return ZERO
+        raise Undecided("skip(%r) of %r elements" % (it[3], n))
+    if k == "take":
+        n = iter_count(ip, st, it[2])
+        if st.F.le(it[3], n):
+            return it[3]
+        if st.F.le(n, it[3]):
+            return n
+        raise Undecided("take(%r) of %r elements" % (it[3], n))
+    if k == "copied":
+        return iter_count(ip, st, it[2])
+    if k in ("zip", "chain", "enumerate", "rev"):
+        # re-dispatch so that nested new kinds are seen
+        if k == "zip":
+            a, b = iter_count(ip, st, it[2]), iter_count(ip, st, it[3])
+            if st.F.le(a, b):
+                return a
+            if st.F.le(b, a):
+                return b
+            raise Undecided("zip of lengths %r and %r" % (a, b))
+        if k == "chain":
+            return iter_count(ip, st, it[2]) + iter_count(ip, st, it[3])
+        return iter_count(ip, st, it[2])
+    return _iter_count2(ip, st, it)
+
+
+def iter_elem_multi(ip, st, it, i):  # noqa: F811
+    k = it[1]
+    if k == "skip":
+        return iter_elem_multi(ip, st, it[2], lin(i) + it[3])
+    if k == "take":
+        return iter_elem_multi(ip, st, it[2], i)
+    if k == "copied":
+        return [(s2, ip.load(s2, tg_of(e))) for s2, e in iter_elem_multi(ip, st, it[2], i)]
+    if k == "rev":
+        n = iter_count(ip, st, it[2])
+        return iter_elem_multi(ip, st, it[2], n - 1 - lin(i))
+    if k == "chain":
+        na = iter_count(ip, st, it[2])
+        out = []
+        for s2, first in fork_on(st, ("lt", lin(i) - na)):
+            if first:
+                out.extend(iter_elem_multi(ip, s2, it[2], i))
+            else:
+                out.extend(iter_elem_multi(ip, s2, it[3], lin(i) - na))
+        return out
+    if k == "zip":
+        out = []
+        for s2, a in iter_elem_multi(ip, st, it[2], i):
+            for s3, b in iter_elem_multi(ip, s2, it[3], i):
+                out.append((s3, ("tuple", [a, b])))
+        return out
+    if k == "enumerate":
+        return [(s2, ("tuple", [vsize(i), e])) for s2, e in iter_elem_multi(ip, st, it[2], i)]
+    if k == "ref":
+        return iter_elem_multi(ip, st, ip.load(st, it[2]), i)
+    return [(st, _iter_elem2(ip, st, it, i))]
